@@ -367,6 +367,76 @@ class CheckIdentityTask(Task):
                  and isinstance(trig[0].args[1], dict) and set(trig[0].args[1]) == {"user_id_type", "primary_field", "secondary_field"})
 
 
+class CheckExtendedTask(Task):
+    """ACSE._check_sop_class_common_extended / _check_sop_class_extended on their real bodies: the two other intervention
+    handlers consulted while a request is negotiated.  Whatever the handler does - raises (one representative per exception
+    class the function can tell apart), returns something that is not a dict, returns entries of the wrong kind - the function
+    returns, never raises, uses only the well-formed entries (an entry the real item setters refuse is left out, the others
+    stay), and assoc.abort is the blocking variant again afterwards: a failing handler cannot turn an acceptable request into a
+    refusal or an error."""
+    shard = False
+
+    def __init__(self, which, prefix="C13/"):
+        self.which, self.prefix = which, prefix
+        self.fn = f"{AC}:ACSE._check_sop_class_common_extended" if which == "common" else f"{AC}:ACSE._check_sop_class_extended"
+        self.name = self.fn.split(":")[1]
+        self.functions = [self.fn]
+
+    def config(self, repo):
+        c = base_config(self.prefix)
+        c.summaries["pynetdicom.utils:set_uid"] = lambda I, a, k: (a[0] if a else k.get("value"))
+        return c
+
+    def body(self, I):
+        P = f"{self.prefix}{self.fn}"
+        g = I.ghost
+        me = Env("acse", cls=I.repo.cls(f"{AC}:ACSE"))
+        assoc, requestor = Env("acse.assoc"), Env("acse.requestor")
+        me.attrs.update(_assoc=assoc, assoc=assoc, requestor=requestor)
+        requestor.attrs["sop_class_common_extended"] = Env("requested_common")
+        requestor.attrs["sop_class_extended"] = Env("requested_extended")
+        excs = exception_partition(I.repo.func(self.fn))
+        KINDS = ["raises", "None", "an int", "empty dict", "dict: two good entries", "dict: a bad entry between two good ones"]
+        kind_i = I.choose(len(KINDS), "handler behaviour")
+        kindn = KINDS[kind_i]
+        exc_name = excs[I.choose(len(excs), "class of the exception the handler raises")] if kindn == "raises" and len(excs) > 1 else excs[0]
+        u1, u2, u3 = Env("uid1"), Env("uid2"), Env("uid3")
+        if self.which == "common":
+            cls = I.repo.cls("pynetdicom.pdu_primitives:SOPClassCommonExtendedNegotiation")
+            good1, good2, bad = Obj(cls), Obj(cls), "not-an-item"
+        else:
+            good1, good2, bad = I.input("bytes", "app_info1"), None, "not-bytes"
+        ret = {"None": None, "an int": 5, "empty dict": {}, "dict: two good entries": {u1: good1, u3: good2},
+               "dict: a bad entry between two good ones": {u1: good1, u2: bad, u3: good2}}.get(kindn)
+
+        def handler(I_, attrs):
+            if kindn == "raises":
+                raise PyRaise(ExcVal(exc_name, ("handler failed",)))
+            return ret
+        g["handlers"] = {"EVT_SOP_COMMON" if self.which == "common" else "EVT_SOP_EXTENDED": handler}
+        kind, val = I.run_function(I.repo.func(self.fn), [me])
+        I.ob(f"{P}/no-exception-whatever-the-handler-does", kind == "return", detail=f"{kindn} ({exc_name}): {kind}:{val!r}")
+        if kind != "return":
+            return
+        sets = [e.args[2] for e in I.trace if e.name == "setattr" and e.args[0] == "acse.assoc" and e.args[1] == "abort"]
+        I.ob(f"{P}/assoc.abort-is-restored-to-the-blocking-variant-on-every-path",
+             len(sets) >= 2 and isinstance(sets[-1], Env) and sets[-1].path.endswith("_abort_blocking"), detail=repr([getattr(x, 'path', x) for x in sets]))
+        trig = [e for e in I.trace if e.name == "evt"]
+        I.ob(f"{P}/handler-invoked-exactly-once-with-the-requested-items", len(trig) == 1 and isinstance(trig[0].args[1], dict)
+             and list(trig[0].args[1].values()) == [requestor.attrs["sop_class_common_extended" if self.which == "common" else "sop_class_extended"]],
+             detail=repr(trig))
+        if self.which == "common":
+            want = {} if not isinstance(ret, dict) else {k: v for k, v in ret.items() if isinstance(v, Obj)}
+            ok = isinstance(val, dict) and list(val.keys()) == list(want.keys()) and all(val[k] is want[k] for k in want)
+            I.ob(f"{P}/result-is-exactly-the-handler's-entries-that-are-negotiation-items-and-empty-on-failure", ok, detail=f"{kindn}: {val!r}")
+        else:
+            want = [] if not isinstance(ret, dict) else [(k, v) for k, v in ret.items() if not isinstance(v, str)]
+            got = [(o.fields.get("_sop_class_uid"), o.fields.get("_service_class_application_information")) for o in val] \
+                if isinstance(val, list) and all(isinstance(o, Obj) and o.cls.name == "SOPClassExtendedNegotiation" for o in val) else None
+            ok = got is not None and len(got) == len(want) and all(a is c and b is d for (a, b), (c, d) in zip(got, want))
+            I.ob(f"{P}/one-response-item-per-entry-the-item-setters-accept-in-the-handler's-order-and-none-on-failure", ok, detail=f"{kindn}: {val!r}")
+
+
 class ActiveAssociationsTask(Task):
     """AE.active_associations (what the limit check counts) is exactly the live Association threads of this AE: every thread
     that threading.enumerate() reports, is an Association and belongs to this AE - no further condition (an association that
